@@ -302,7 +302,7 @@ Proof.
     + reflexivity.
 Qed.
 
-Lemma step_ctrans s o : Inv s -> Strict s -> wf_op o ->
+Lemma step_ctrans s o : Inv s -> Strict s -> wf_op s o ->
   forall id, ctrans (st_height s) (st_height (step s o)) (get id (st_contracts s)) (get id (st_contracts (step s o))).
 Proof.
   intros I S W id. unfold step. destruct o as [m|who id0 secret|dts|gw gP]; simpl.
@@ -319,7 +319,7 @@ Proof.
     apply andb_true_iff in Hb. destruct Hb as [Ho He]. apply Z.leb_le in He. unfold openb in Ho.
     destruct (c_state c) eqn:Hst; try discriminate. pose proof (S _ _ Hg Hst).
     apply ct_close; [exact Hst|discriminate|lia].
-  - destruct W.
+  - destruct ((gw =? GOV) && params_valid gP); constructor.
 Qed.
 
 Lemma ctrans_trans_ok h0 h1 oc oc' : ctrans h0 h1 oc oc' ->
@@ -358,7 +358,8 @@ Record Vw (k : case) (nd : nat) (s : state) (code : Z) (o : obs) : Prop := mkVw 
   vw_queue : o_queue o = qproj k s;
   vw_bals : o_bals o = mat (accounts k) nd (bal (st_bank s));
   vw_sups : o_sups o = sproj_assets k s;
-  vw_bsups : o_bsups o = bsproj k s }.
+  vw_bsups : o_bsups o = bsproj k s;
+  vw_params : o_params o = st_params s }.
 
 Lemma mat_hd_length k nd f : length (hd [] (mat (accounts k) nd f)) = nd.
 Proof.
@@ -373,7 +374,7 @@ Proof.
   rewrite (vw_contracts _ _ _ _ _ V). unfold cproj. rewrite eqb_refl. simpl.
   rewrite (vw_queue _ _ _ _ _ V). unfold qproj. rewrite map_length, Nat.eqb_refl. simpl.
   rewrite Hd, (vw_bals _ _ _ _ _ V). unfold mat. rewrite eqb_refl.
-  rewrite (vw_sups _ _ _ _ _ V), (vw_bsups _ _ _ _ _ V). unfold sproj_assets, bsproj. rewrite !eqb_refl.
+  rewrite (vw_sups _ _ _ _ _ V), (vw_bsups _ _ _ _ _ V), (vw_params _ _ _ _ _ V). unfold sproj_assets, bsproj. rewrite !eqb_refl.
   rewrite !andb_true_r. apply forallb_forall. intros e He. apply existsb_exists.
   exists (fst e, index_from (snd e) (k_ids k) 0). split.
   - apply in_map_iff. exists e. auto.
@@ -390,7 +391,18 @@ Record Tbl (k : case) (s : state) : Prop := mkTbl {
      /\ (id_to id < k_nactors k \/ id_to id = ESC \/ id_to id = BLK)
      /\ denoms_nonneg (id_amount id);
   tb_pden : NoDup (map ap_denom (k_params k));
-  tb_params : st_params s = k_params k }.
+  (* the parameters in force support exactly the assets of the case's genesis list, each once *)
+  tb_sd : same_denoms (k_params k) (st_params s);
+  tb_pnd : NoDup (map ap_denom (st_params s)) }.
+
+Lemma tbl_lookup k s p0 : Tbl k s -> In p0 (k_params k) ->
+  exists p, get_param (st_params s) (ap_denom p0) = Some p /\ In p (st_params s) /\ ap_denom p = ap_denom p0.
+Proof.
+  intros T Hin. destruct (get_param (st_params s) (ap_denom p0)) as [p|] eqn:E.
+  - exists p. split; [reflexivity|]. split; [|exact (get_param_denom _ _ _ E)].
+    unfold get_param in E. apply find_some in E. tauto.
+  - exfalso. apply (tb_sd _ _ T) in E. exact (get_param_In _ _ Hin E).
+Qed.
 
 Lemma id_fields P id c : wfc P id c ->
   id_hl id = c_hl c /\ id_sender id = c_sender c /\ id_to id = c_to c /\ id_amount id = c_amount c.
@@ -517,10 +529,12 @@ Record StepFacts (k : case) (s s' : state) (evs : list event) : Prop := mkSF {
   sf_bank : forall a d, bal (st_bank s') a d = bal (st_bank s) a d + log_effect evs a d;
   sf_params : st_params s' = st_params s }.
 
-Lemma step_facts k s o : Inv s -> Strict s -> wf_op o -> Tbl k (step s o) -> exists evs, StepFacts k s (step s o) evs.
+Lemma step_facts k s o : Inv s -> Strict s -> wf_op s o -> (forall who P', o <> SetParams who P') ->
+  Tbl k (step s o) -> exists evs, StepFacts k s (step s o) evs.
 Proof.
-  intros I S W T. destruct (step_inv s o I S W) as (I' & S' & P'). destruct (step_log_bank s o) as (evs & Hl & Hb).
-  exists evs. constructor; auto. exact (step_ctrans s o I S W).
+  intros I S W Hns T. destruct (step_inv s o I S W) as (I' & S' & P'). destruct (step_log_bank s o) as (evs & Hl & Hb).
+  exists evs. constructor; auto; [exact (step_ctrans s o I S W)|].
+  rewrite P'. destruct o; try reflexivity. exfalso. exact (Hns _ _ eq_refl).
 Qed.
 
 Section OneStep.
@@ -565,9 +579,8 @@ Section OneStep.
     - rewrite (vw_bsups _ _ _ _ _ V), (vw_bsups _ _ _ _ _ V'), (vw_contracts _ _ _ _ _ V), (vw_contracts _ _ _ _ _ V'), !cproj_Pof.
       unfold bsproj. rewrite combine_map_r, map_map. apply eqb_true_iff. apply map_ext_in. intros p Hp. cbn [fst snd].
       rewrite fold3_sum.
-      assert (Hgp : get_param (st_params s) (ap_denom p) = Some p).
-      { rewrite <- (sf_params _ _ _ _ F), (tb_params _ _ T). exact (get_param_NoDup _ _ (tb_pden _ _ T) Hp). }
-      assert (Hgp' : get_param (st_params s') (ap_denom p) = Some p) by (rewrite (sf_params _ _ _ _ F); exact Hgp).
+      destruct (tbl_lookup k s' p T Hp) as (p1 & Hgp' & _ & _).
+      assert (Hgp : get_param (st_params s) (ap_denom p) = Some p1) by (rewrite <- (sf_params _ _ _ _ F); exact Hgp').
       destruct (inv_asset _ I _ _ Hgp) as (a & _ & _ & _ & Hcur & Hsup & _).
       destruct (inv_asset _ I' _ _ Hgp') as (a' & _ & _ & _ & Hcur' & Hsup' & _).
       rewrite Hsup, Hsup', Hcur, Hcur'.
@@ -669,14 +682,37 @@ Proof.
     apply Z.ltb_lt. exact (S' _ _ Hg Hst).
 Qed.
 
+(** a parameter change touches nothing but the parameters *)
+Lemma setparams_fields s who P' :
+  let s' := step s (SetParams who P') in
+  st_contracts s' = st_contracts s /\ st_queue s' = st_queue s /\ st_bank s' = st_bank s /\ st_assets s' = st_assets s
+  /\ st_supply s' = st_supply s /\ st_prev s' = st_prev s /\ st_win s' = st_win s /\ st_time s' = st_time s
+  /\ st_height s' = st_height s /\ st_log s' = st_log s.
+Proof. cbv zeta. unfold step. cbn [exec]. destruct ((who =? GOV) && params_valid P'); repeat split; reflexivity. Qed.
+
+Lemma p03_setparams k nd s who P' po o code0 code : Vw k nd s code0 po -> Vw k nd (step s (SetParams who P')) code o ->
+  p03 k true po (CSetParams who P') o = 0.
+Proof.
+  intros V V'. destruct (setparams_fields s who P') as (E1 & E2 & E3 & E4 & E5 & E6 & _).
+  unfold p03, same_view.
+  rewrite (vw_contracts _ _ _ _ _ V), (vw_contracts _ _ _ _ _ V'), (vw_queue _ _ _ _ _ V), (vw_queue _ _ _ _ _ V'),
+          (vw_bals _ _ _ _ _ V), (vw_bals _ _ _ _ _ V'), (vw_sups _ _ _ _ _ V), (vw_sups _ _ _ _ _ V'),
+          (vw_bsups _ _ _ _ _ V), (vw_bsups _ _ _ _ _ V'), (vw_prev _ _ _ _ _ V), (vw_prev _ _ _ _ _ V').
+  unfold cproj, qproj, sproj_assets, bsproj. rewrite E1, E2, E3, E4, E5, E6.
+  rewrite !eqb_refl, Z.eqb_refl. reflexivity.
+Qed.
+
 (** *** the C03 monitor on one model step *)
-Lemma p03_step k nd s c po o code0 : Inv s -> Strict s -> wf_op (to_op k c) -> op_wf k c = true ->
+Lemma p03_step k nd s c po o code0 : Inv s -> Strict s -> wf_op s (to_op k c) -> op_wf k c = true ->
   Tbl k (step s (to_op k c)) -> Vw k nd s code0 po ->
   Vw k nd (step s (to_op k c)) (if step_ok s (to_op k c) then 0 else 1) o ->
-  p03 k po c o = 0.
+  p03 k true po c o = 0.
 Proof.
   intros I S W OW T V V'.
-  destruct (step_facts k s (to_op k c) I S W T) as (evs & F).
+  destruct (is_setparams c) eqn:Hsp.
+  { destruct c; try discriminate. exact (p03_setparams k nd s _ _ po o code0 _ V V'). }
+  assert (Hns : forall who P', to_op k c <> SetParams who P') by (destruct c; try discriminate; intros; discriminate).
+  destruct (step_facts k s (to_op k c) I S W Hns T) as (evs & F).
   pose proof (sf_moves k nd s _ evs F po o _ _ V V') as Hmv.
   pose proof (sf_sm k nd s _ evs F po o _ _ V V') as Hsm.
   assert (Hrej : step_ok s (to_op k c) = false -> same_view po o = true).
@@ -759,7 +795,7 @@ Proof.
   - cbv zeta. cbn [to_op step_ok exec] in V'.
     match goal with |- first_nonzero [_; (if ?b then _ else _); _] = 0 => replace b with true; [reflexivity|symmetry] end.
     exact (adv_due_live k nd s (repeat dt (Z.to_nat n)) po o code0 I S V V').
-  - destruct W.
+  - discriminate Hsp.
 Qed.
 
 (** *** the C04 monitor on one model state *)
@@ -786,14 +822,24 @@ Proof.
   unfold w_cur, wci, wco, is_in, is_out. destruct (complb c), (c_transfer c), (c_dir c); simpl; lia.
 Qed.
 
+(** the part of a view the C04 monitor reads *)
+Record Vw4 (k : case) (nd : nat) (s : state) (o : obs) : Prop := mkVw4 {
+  v4_contracts : o_contracts o = cproj k s;
+  v4_bals : o_bals o = mat (accounts k) nd (bal (st_bank s));
+  v4_sups : o_sups o = sproj_assets k s;
+  v4_bsups : o_bsups o = bsproj k s }.
+
+Lemma Vw_Vw4 k nd s code o : Vw k nd s code o -> Vw4 k nd s o.
+Proof. intros V. constructor; apply V. Qed.
+
 Section SumWhere.
-  Context (k : case) (nd : nat) (s : state) (code : Z) (o : obs) (I : Inv s) (T : Tbl k s) (V : Vw k nd s code o).
+  Context (k : case) (nd : nat) (s : state) (o : obs) (I : Inv s) (T : Tbl k s) (V : Vw4 k nd s o).
 
   Lemma sum_where_wsum (pred : cobs -> bool) (w : denom -> contract -> Z) d :
     (forall c, (if pred (proj_contract c) then amt c d else 0) = w d c) ->
     sum_where k o pred d = wsum (w d) (st_contracts s).
   Proof.
-    intros Hw. rewrite (sum_where_eq k o pred d (Pof s)) by (rewrite (vw_contracts _ _ _ _ _ V); reflexivity).
+    intros Hw. rewrite (sum_where_eq k o pred d (Pof s)) by (rewrite (v4_contracts _ _ _ _ V); reflexivity).
     rewrite <- (table_sum (fun id oc => match oc with Some c => if pred (proj_contract c) then amt_of (id_amount id) d else 0 | None => 0 end)
                           (w d) (k_ids k) (tb_nodup _ _ T) (fun _ : cid => eq_refl) (st_contracts s) (inv_keys _ I)).
     - apply zsum_map_ext. intros id _. unfold Pof. destruct (get id (st_contracts s)); reflexivity.
@@ -834,7 +880,7 @@ End SumWhere.
 
 (** the monitor's window bookkeeping agrees with the model's, for the time-limited assets *)
 Definition WsRel (k : case) (s : state) (ws : list (Z * Z)) : Prop :=
-  forall p w, In (p, w) (combine (k_params k) ws) -> ap_tl p = true ->
+  forall p w, In (p, w) (combine (k_params k) ws) ->
     option_map as_el (get (ap_denom p) (st_assets s)) = Some (fst w) /\ snd w = sup_of (st_win s) (ap_denom p).
 
 Lemma In_combine4 {P S B W} (FS : P -> S) (FB : P -> B) : forall (l : list P) (ws : list W) x,
@@ -847,12 +893,12 @@ Proof.
   - destruct (IH ws x Hin) as (p' & w' & H1 & H2 & H3). exists p', w'. split; [right; exact H1|]. split; [right; exact H2|exact H3].
 Qed.
 
-Lemma p04_state k nd s code o ws : Inv s -> Tbl k s -> Vw k nd s code o -> WsRel k s ws -> p04 k o ws = 0.
+Lemma p04_state4 k nd s o ws : Inv s -> Tbl k s -> Vw4 k nd s o -> WsRel k s ws -> p04 k true (st_params s) o ws = 0.
 Proof.
   intros I T V WR. pose proof (Inv_C04_of_Inv s I) as [Hesc Hasset].
-  assert (Hd : denoms_of o = zseq nd) by (unfold denoms_of; rewrite (vw_bals _ _ _ _ _ V), mat_hd_length; reflexivity).
+  assert (Hd : denoms_of o = zseq nd) by (unfold denoms_of; rewrite (v4_bals _ _ _ _ V), mat_hd_length; reflexivity).
   assert (Hrow : nthZ (k_nactors k) (o_bals o) = Some (map (fun d => bal (st_bank s) ESC d) (zseq nd))).
-  { rewrite (vw_bals _ _ _ _ _ V). unfold mat. rewrite nthZ_map. unfold nthZ.
+  { rewrite (v4_bals _ _ _ _ V). unfold mat. rewrite nthZ_map. unfold nthZ.
     destruct (tb_nact _ _ T) as [H0 H1]. replace (k_nactors k <? 0) with false by (symmetry; apply Z.ltb_ge; exact H0).
     pose proof (accounts_nth k ESC (tb_nact _ _ T) (ESC_party k)) as Hn. unfold row_index in Hn. rewrite Z.eqb_refl in Hn.
     rewrite Hn. reflexivity. }
@@ -863,41 +909,41 @@ Proof.
             forallb (fun x : aparam * option (Z * Z * Z * Z * Z) * Z * (Z * Z) =>
                        let '(p, s0, b, w) := x in match s0 with Some s' => f p s' b w | None => false end)
                     (combine (combine (combine (k_params k) (o_sups o)) (o_bsups o)) ws) = true).
-  { intros f Hf. rewrite (vw_sups _ _ _ _ _ V), (vw_bsups _ _ _ _ _ V). unfold sproj_assets, bsproj.
+  { intros f Hf. rewrite (v4_sups _ _ _ _ V), (v4_bsups _ _ _ _ V). unfold sproj_assets, bsproj.
     apply forallb_forall. intros x Hx. destruct (In_combine4 _ _ _ _ _ Hx) as (p & w & Hp & Hpw & ->).
-    assert (Hgp : get_param (st_params s) (ap_denom p) = Some p)
-      by (rewrite (tb_params _ _ T); exact (get_param_NoDup _ _ (tb_pden _ _ T) Hp)).
+    destruct (tbl_lookup k s p T Hp) as (p1 & Hgp & _ & _).
     destruct (inv_asset _ I _ _ Hgp) as (a & Ha & _). rewrite Ha. simpl. exact (Hf p w a Hp Hpw Ha). }
   unfold p04. rewrite Hrow, Hd.
   replace (eqb (map (fun d => bal (st_bank s) ESC d) (zseq nd))
                (map (fun d => sum_where k o (fun c => is_open c && locks c) d) (zseq nd))) with true.
-  2:{ symmetry. apply eqb_true_iff. apply map_ext. intros d. rewrite (sw_esc k nd s code o I T V d). exact (Hesc d). }
+  2:{ symmetry. apply eqb_true_iff. apply map_ext. intros d. rewrite (sw_esc k nd s o I T V d). exact (Hesc d). }
   cbn [negb].
   rewrite Hper.
   2:{ intros p w a Hp Hpw Ha.
-      assert (Hgp : get_param (st_params s) (ap_denom p) = Some p)
-        by (rewrite (tb_params _ _ T); exact (get_param_NoDup _ _ (tb_pden _ _ T) Hp)).
+      destruct (tbl_lookup k s p T Hp) as (p1 & Hgp & _ & _).
       destruct (Hasset _ _ Hgp) as (a0 & Ha0 & Hin & Hout & _). rewrite Ha in Ha0. inversion Ha0; subst a0.
-      rewrite (sw_in k nd s code o I T V), (sw_out k nd s code o I T V), <- Hin, <- Hout, !Z.eqb_refl. reflexivity. }
+      rewrite (sw_in k nd s o I T V), (sw_out k nd s o I T V), <- Hin, <- Hout, !Z.eqb_refl. reflexivity. }
   cbn [negb].
   rewrite Hper.
   2:{ intros p w a Hp Hpw Ha.
-      assert (Hgp : get_param (st_params s) (ap_denom p) = Some p)
-        by (rewrite (tb_params _ _ T); exact (get_param_NoDup _ _ (tb_pden _ _ T) Hp)).
+      destruct (tbl_lookup k s p T Hp) as (p1 & Hgp & _ & _).
       destruct (Hasset _ _ Hgp) as (a0 & Ha0 & _ & _ & Hcur & Hsup & _). rewrite Ha in Ha0. inversion Ha0; subst a0.
-      rewrite (sw_ci k nd s code o I T V), (sw_co k nd s code o I T V), <- wsum_sub.
+      rewrite (sw_ci k nd s o I T V), (sw_co k nd s o I T V), <- wsum_sub.
       rewrite <- (wsum_ext (w_cur (ap_denom p)) _ _ (fun _ c _ => w_cur_split (ap_denom p) c)).
       rewrite Hsup, <- Hcur, !Z.eqb_refl. reflexivity. }
   cbn [negb].
   rewrite Hper; [reflexivity|].
   intros p w a Hp Hpw Ha.
-  assert (Hgp : get_param (st_params s) (ap_denom p) = Some p)
-    by (rewrite (tb_params _ _ T); exact (get_param_NoDup _ _ (tb_pden _ _ T) Hp)).
+  destruct (tbl_lookup k s p T Hp) as (p1 & Hgp & _ & _). rewrite Hgp.
   destruct (Hasset _ _ Hgp) as (a0 & Ha0 & _ & _ & _ & _ & Hlim & Hoc & Htl). rewrite Ha in Ha0. inversion Ha0; subst a0.
   apply andb_true_iff. split; [apply andb_true_iff; split; [apply andb_true_iff; split|]|]; try (apply Z.leb_le; lia).
-  destruct (ap_tl p) eqn:Etl; [|reflexivity]. cbn. destruct (Htl eq_refl) as (_ & _ & Hw).
-  destruct (WR p w Hpw Etl) as [_ Hsw]. rewrite Hsw. apply Z.leb_le. exact Hw.
+  destruct (ap_tl p1) eqn:Etl; [|reflexivity]. cbn. destruct (Htl eq_refl) as (_ & _ & Hw).
+  destruct (WR p w Hpw) as [_ Hsw]. rewrite Hsw. apply Z.leb_le. exact Hw.
 Qed.
+
+Lemma p04_state k nd s code o ws : Inv s -> Tbl k s -> Vw k nd s code o -> WsRel k s ws -> p04 k true (st_params s) o ws = 0.
+Proof. intros I T V WR. exact (p04_state4 k nd s o ws I T (Vw_Vw4 _ _ _ _ _ V) WR). Qed.
+
 
 (** ** Part E: the monitor's window bookkeeping follows the model *)
 Definition elmap (s : state) (d : denom) : option Z := option_map as_el (get d (st_assets s)).
@@ -925,6 +971,13 @@ Lemma ke_dec_outgoing x : keeps_el (dec_outgoing x). Proof. keeps_el_tac. Qed.
 Lemma with_asset_quiet s d f s' : keeps_el f -> with_asset s d f = Some s' -> Quiet s s' /\ st_win s' = st_win s.
 Proof.
   intros Hk H. destruct (with_asset_Some _ _ _ _ H) as (a & p & a' & Ha & _ & Hf & ->).
+  split; [|reflexivity]. split; [|split; reflexivity]. intros d0. unfold elmap. sproj. rewrite get_set.
+  destruct (eq_dec d0 d) as [->|]; [|reflexivity]. rewrite Ha. simpl. f_equal. exact (Hk _ _ _ Hf).
+Qed.
+
+Lemma with_supply_quiet s d f s' : keeps_el f -> with_supply s d f = Some s' -> Quiet s s' /\ st_win s' = st_win s.
+Proof.
+  intros Hk H. destruct (with_supply_Some _ _ _ _ H) as (a & a' & Ha & Hf & ->).
   split; [|reflexivity]. split; [|split; reflexivity]. intros d0. unfold elmap. sproj. rewrite get_set.
   destruct (eq_dec d0 d) as [->|]; [|reflexivity]. rewrite Ha. simpl. f_equal. exact (Hk _ _ _ Hf).
 Qed.
@@ -961,10 +1014,10 @@ Lemma refund_quiet s id c : QuietW s (refund s id c).
 Proof.
   unfold refund. cbv zeta. destruct (c_transfer c).
   - destruct (c_amount c) as [|[d x] cs]; [apply QuietW_refl|]. destruct (c_dir c); [apply QuietW_refl| |].
-    + destruct (with_asset s d (dec_incoming x)) as [s1|] eqn:H1; [|apply QuietW_refl].
-      apply (QuietW_trans _ s1); [exact (with_asset_quiet _ _ _ _ (ke_dec_incoming x) H1)|apply QuietW_same; reflexivity].
-    + destruct (with_asset s d (dec_outgoing x)) as [s1|] eqn:H1; [|apply QuietW_refl].
-      apply (QuietW_trans _ s1); [exact (with_asset_quiet _ _ _ _ (ke_dec_outgoing x) H1)|].
+    + destruct (with_supply s d (dec_incoming x)) as [s1|] eqn:H1; [|apply QuietW_refl].
+      apply (QuietW_trans _ s1); [exact (with_supply_quiet _ _ _ _ (ke_dec_incoming x) H1)|apply QuietW_same; reflexivity].
+    + destruct (with_supply s d (dec_outgoing x)) as [s1|] eqn:H1; [|apply QuietW_refl].
+      apply (QuietW_trans _ s1); [exact (with_supply_quiet _ _ _ _ (ke_dec_outgoing x) H1)|].
       destruct (pay_out s1 id (c_sender c) ((d, x) :: cs)) as [s2|] eqn:H2; [|apply QuietW_refl].
       apply (QuietW_trans _ s2); [exact (pay_out_quiet _ _ _ _ _ H2)|apply QuietW_same; reflexivity].
   - destruct (pay_out s id (c_sender c) (c_amount c)) as [s1|] eqn:H1; [|apply QuietW_refl].
@@ -997,16 +1050,16 @@ Proof.
     split.
     + apply (Quiet_trans _ s1); [|apply Quiet_same; reflexivity].
       unfold claim_htlt in Hb. destruct (c_amount c) as [|[d x] cs]; [discriminate|]. destruct (c_dir c); [discriminate| |].
-      * destruct (with_asset s d (dec_incoming x)) as [s2|] eqn:H1; [|discriminate].
+      * destruct (with_supply s d (dec_incoming x)) as [s2|] eqn:H1; [|discriminate].
         destruct (with_asset s2 d (inc_current x)) as [s3|] eqn:H2; [|discriminate].
-        apply (Quiet_trans _ s2); [exact (proj1 (with_asset_quiet _ _ _ _ (ke_dec_incoming x) H1))|].
+        apply (Quiet_trans _ s2); [exact (proj1 (with_supply_quiet _ _ _ _ (ke_dec_incoming x) H1))|].
         apply (Quiet_trans _ s3); [exact (proj1 (with_asset_quiet _ _ _ _ (ke_inc_current x) H2))|].
         apply (Quiet_trans _ (add_win (mint s3 id ((d, x) :: cs)) d x)); [apply Quiet_same; reflexivity|].
         exact (proj1 (pay_out_quiet _ _ _ _ _ Hb)).
-      * destruct (with_asset s d (dec_outgoing x)) as [s2|] eqn:H1; [|discriminate].
-        destruct (with_asset s2 d (dec_current x)) as [s3|] eqn:H2; [|discriminate].
-        apply (Quiet_trans _ s2); [exact (proj1 (with_asset_quiet _ _ _ _ (ke_dec_outgoing x) H1))|].
-        apply (Quiet_trans _ s3); [exact (proj1 (with_asset_quiet _ _ _ _ (ke_dec_current x) H2))|].
+      * destruct (with_supply s d (dec_outgoing x)) as [s2|] eqn:H1; [|discriminate].
+        destruct (with_supply s2 d (dec_current x)) as [s3|] eqn:H2; [|discriminate].
+        apply (Quiet_trans _ s2); [exact (proj1 (with_supply_quiet _ _ _ _ (ke_dec_outgoing x) H1))|].
+        apply (Quiet_trans _ s3); [exact (proj1 (with_supply_quiet _ _ _ _ (ke_dec_current x) H2))|].
         exact (proj1 (burn_quiet _ _ _ _ Hb)).
     + exists c. split; [reflexivity|]. rewrite Htr. unfold dequeue, set_contract. sproj.
       destruct (c_amount c) as [|[d x] cs] eqn:Ham; [unfold claim_htlt in Hb; rewrite Ham in Hb; discriminate|].
@@ -1017,12 +1070,12 @@ Proof.
     + exists c. split; [reflexivity|]. rewrite Htr. unfold dequeue, set_contract. sproj. exact Wn.
 Qed.
 
-Lemma msg_win s o : Inv s -> Strict s -> wf_op o -> (forall dts, o <> Adv dts) ->
+Lemma msg_win s o : Inv s -> Strict s -> wf_op s o -> (forall dts, o <> Adv dts) -> (forall who P', o <> SetParams who P') ->
   Quiet s (step s o)
   /\ forall d, sup_of (st_win (step s o)) d
               = sup_of (st_win s) d + (wsum (wci d) (st_contracts (step s o)) - wsum (wci d) (st_contracts s)).
 Proof.
-  intros I S W Hna. unfold step. destruct o as [m|who id secret|dts|gw gP]; [| |exfalso; exact (Hna dts eq_refl)|destruct W]; cbn [exec].
+  intros I S W Hna Hns. unfold step. destruct o as [m|who id secret|dts|gw gP]; [| |exfalso; exact (Hna dts eq_refl)|exfalso; exact (Hns _ _ eq_refl)]; cbn [exec].
   - destruct (create s m) as [s'|] eqn:Hc; [|split; [apply Quiet_refl|intros; lia]].
     destruct (create_quiet _ _ _ Hc) as [Q Wn]. split; [exact Q|]. intros d.
     destruct (create_open_rel s m s' I W Hc) as (dr & R).
@@ -1094,17 +1147,17 @@ Proof.
   rewrite IH. reflexivity.
 Qed.
 
-Lemma WsRel_msg k nd s o code0 code po ob ws evs : StepFacts k s (step s o) evs -> Strict s -> wf_op o ->
-  (forall dts, o <> Adv dts) ->
+Lemma WsRel_msg k nd s o code0 code po ob ws evs : StepFacts k s (step s o) evs -> Strict s -> wf_op s o ->
+  (forall dts, o <> Adv dts) -> (forall who P', o <> SetParams who P') ->
   Vw k nd s code0 po -> Vw k nd (step s o) code ob -> WsRel k s ws -> WsRel k (step s o) (wclaims k po ob ws).
 Proof.
-  intros F S W Hna V V' WR. pose proof (sf_inv _ _ _ _ F) as I. pose proof (sf_inv' _ _ _ _ F) as I'. pose proof (sf_tbl' _ _ _ _ F) as T.
-  destruct (msg_win s o I S W Hna) as ((Hel & _ & _) & Hwin).
+  intros F S W Hna Hns V V' WR. pose proof (sf_inv _ _ _ _ F) as I. pose proof (sf_inv' _ _ _ _ F) as I'. pose proof (sf_tbl' _ _ _ _ F) as T.
+  destruct (msg_win s o I S W Hna Hns) as ((Hel & _ & _) & Hwin).
   rewrite (wclaims_eq k po ob ws (Pof s) (Pof (step s o)))
     by (first [rewrite (vw_contracts _ _ _ _ _ V)|rewrite (vw_contracts _ _ _ _ _ V')]; reflexivity).
-  intros p w Hin Htl. rewrite combine_map_snd in Hin. apply in_map_iff in Hin.
+  intros p w Hin. rewrite combine_map_snd in Hin. apply in_map_iff in Hin.
   destruct Hin as ([p0 [el0 w0]] & E & Hin0). cbn [fst snd] in E. inversion E; subst p w. clear E.
-  destruct (WR p0 (el0, w0) Hin0 Htl) as [He Hw]. cbn [fst snd] in *.
+  destruct (WR p0 (el0, w0) Hin0) as [He Hw]. cbn [fst snd] in *.
   split; [unfold elmap in Hel; rewrite (Hel (ap_denom p0)); exact He|].
   rewrite Hwin, Hw. f_equal.
   rewrite (zsum_map_ext _ (fun id => Gci (ap_denom p0) (get id (st_contracts (step s o))) - Gci (ap_denom p0) (get id (st_contracts s)))).
@@ -1170,77 +1223,100 @@ Proof.
   destruct (get id (st_contracts s2)) as [c|]; [|reflexivity].
   unfold refund. cbv zeta. destruct (c_transfer c).
   - destruct (c_amount c) as [|[d x] cs]; [reflexivity|]. destruct (c_dir c); [reflexivity| |].
-    + destruct (with_asset s2 d (dec_incoming x)) as [s3|] eqn:Hw; [|reflexivity].
-      destruct (with_asset_Some _ _ _ _ Hw) as (? & ? & ? & _ & _ & _ & ->). reflexivity.
-    + destruct (with_asset s2 d (dec_outgoing x)) as [s3|] eqn:Hw; [|reflexivity].
-      destruct (with_asset_Some _ _ _ _ Hw) as (? & ? & ? & _ & _ & _ & ->). unfold pay_out.
+    + destruct (with_supply s2 d (dec_incoming x)) as [s3|] eqn:Hw; [|reflexivity].
+      destruct (with_supply_Some _ _ _ _ Hw) as (? & ? & _ & _ & ->). reflexivity.
+    + destruct (with_supply s2 d (dec_outgoing x)) as [s3|] eqn:Hw; [|reflexivity].
+      destruct (with_supply_Some _ _ _ _ Hw) as (? & ? & _ & _ & ->). unfold pay_out.
       destruct (blocked (c_sender c)); [reflexivity|]. sproj. destruct (send_coins _ _ _ _); reflexivity.
   - unfold pay_out. destruct (blocked (c_sender c)); [reflexivity|]. destruct (send_coins _ _ _ _); reflexivity.
 Qed.
 
 Definition PrevInv (s : state) : Prop := st_prev s = st_time s.
 
-Lemma wtick_rule dt p e w : wtick dt (p, (e, w)) = tick_rule dt p e w.
-Proof. reflexivity. Qed.
+Lemma wtick_in_force P dt p0 p e w : get_param P (ap_denom p0) = Some p -> wtick P dt (p0, (e, w)) = tick_rule dt p e w.
+Proof. intros H. unfold wtick, tick_rule. rewrite H. reflexivity. Qed.
 
-Lemma begin_block_ws k s dt ws : Inv s -> st_params s = k_params k -> NoDup (map ap_denom (k_params k)) ->
-  PrevInv s -> WsRel k s ws ->
-  WsRel k (begin_block s dt) (map (wtick dt) (combine (k_params k) ws)) /\ (k_params k <> [] -> PrevInv (begin_block s dt)).
-Proof.
-  intros I HP Hnd HPrev WR. unfold begin_block. cbv zeta.
-  set (s0 := new_block s dt). set (s1 := fold_left (refund_one (st_height s0)) (due (st_height s0) (st_queue s0)) s0).
-  destruct (fold_quiet (refund_one (st_height s0)) (refund_one_quiet (st_height s0)) (due (st_height s0) (st_queue s0)) s0)
-    as ((Hel & Ht & Hp) & Hwn). fold s1 in Hel, Ht, Hp, Hwn.
-  assert (Hpar1 : st_params s1 = k_params k) by (unfold s1; rewrite refund_fold_params; exact HP).
-  unfold update_windows. rewrite Hpar1. destruct (k_params k) as [|p0 P] eqn:EP.
-  - split; [intros p w Hin; rewrite EP in Hin; destruct Hin|congruence].
-  - rewrite <- EP in *. clear p0 P EP.
-    assert (Hdt : st_time s1 - st_prev s1 = dt).
-    { rewrite Ht, Hp. unfold s0, new_block. sproj. unfold PrevInv in HPrev. lia. }
-    rewrite Hdt. destruct (tick_fold_at dt (k_params k) s1 Hnd) as [Hat _].
-    split; [|intros _; unfold PrevInv; reflexivity].
-    intros p w Hin Htl. sproj. rewrite combine_map_snd in Hin. apply in_map_iff in Hin.
-    destruct Hin as ([p1 [e0 w0]] & E & Hin0). cbn [fst] in E. inversion E; subst p w. clear E.
-    destruct (WR p1 (e0, w0) Hin0 Htl) as [He Hw]. cbn [fst snd] in He, Hw.
-    assert (Hp1 : In p1 (k_params k)) by (exact (in_combine_l _ _ _ _ Hin0)).
-    assert (Ha : exists a, get (ap_denom p1) (st_assets s1) = Some a /\ as_el a = e0).
-    { pose proof (Hel (ap_denom p1)) as E1. unfold elmap in E1. change (st_assets s0) with (st_assets s) in E1. rewrite He in E1.
-      destruct (get (ap_denom p1) (st_assets s1)) as [a|] eqn:G; [|discriminate]. exists a. split; [reflexivity|]. simpl in E1. congruence. }
-    destruct Ha as (a & Ha & Hae). destruct (Hat p1 a Hp1 Ha) as [F1 F2].
-    unfold elmap in F1. change (if ap_tl p1 && (e0 + dt <? ap_period p1) then (e0 + dt, w0) else (0, 0)) with (tick_rule dt p1 e0 w0).
-    rewrite F1, F2, Hae, Hwn. change (st_win s0) with (st_win s). rewrite <- Hw.
-    split; reflexivity.
-Qed.
+Definition PInv (k : case) (s : state) : Prop := k_params k <> [] -> PrevInv s.
 
 Lemma WsRel_nil k s ws : k_params k = [] -> WsRel k s ws.
 Proof. intros E p w Hin. rewrite E in Hin. destruct Hin. Qed.
 
-Definition PInv (k : case) (s : state) : Prop := k_params k <> [] -> PrevInv s.
-
-Lemma adv_ws k : forall dts s ws, Inv s -> Strict s -> st_params s = k_params k -> NoDup (map ap_denom (k_params k)) ->
-  PInv k s -> WsRel k s ws ->
-  WsRel k (fold_left begin_block dts s) (wticks k ws dts) /\ PInv k (fold_left begin_block dts s).
+Lemma begin_block_ws k s dt ws : Inv s -> Tbl k s -> PInv k s -> WsRel k s ws ->
+  WsRel k (begin_block s dt) (map (wtick (st_params s) dt) (combine (k_params k) ws)) /\ PInv k (begin_block s dt).
 Proof.
-  unfold wticks. induction dts as [|dt dts IH]; intros s ws I S HP Hnd HPv WR; simpl; [auto|].
+  intros I T HPrev WR. unfold begin_block. cbv zeta.
+  set (s0 := new_block s dt). set (s1 := fold_left (refund_one (st_height s0)) (due (st_height s0) (st_queue s0)) s0).
+  destruct (fold_quiet (refund_one (st_height s0)) (refund_one_quiet (st_height s0)) (due (st_height s0) (st_queue s0)) s0)
+    as ((Hel & Ht & Hp) & Hwn). fold s1 in Hel, Ht, Hp, Hwn.
+  assert (Hpar1 : st_params s1 = st_params s) by (unfold s1; rewrite refund_fold_params; reflexivity).
+  destruct (k_params k) as [|u0 U] eqn:EU.
+  { rewrite <- EU. split; [apply WsRel_nil; exact EU|intros Hne; exfalso; exact (Hne EU)]. }
+  rewrite <- EU in *.
+  assert (Hune : k_params k <> []) by (rewrite EU; discriminate).
+  assert (Hpne : st_params s1 <> []).
+  { rewrite Hpar1. destruct (tbl_lookup k s u0 T) as (p & _ & Hin & _); [rewrite EU; left; reflexivity|].
+    intros E. rewrite E in Hin. destruct Hin. }
+  unfold update_windows. destruct (st_params s1) as [|q0 Q] eqn:EP; [congruence|]. rewrite <- EP in *. clear q0 Q EP.
+  assert (Hdt : st_time s1 - st_prev s1 = dt).
+  { rewrite Ht, Hp. unfold s0, new_block. sproj. pose proof (HPrev Hune) as HPv. unfold PrevInv in HPv. lia. }
+  rewrite Hdt. rewrite Hpar1. destruct (tick_fold_at dt (st_params s) s1 (tb_pnd _ _ T)) as [Hat _].
+  split; [|intros _; unfold PrevInv; reflexivity].
+  intros p0 w Hin. sproj. rewrite combine_map_snd in Hin. apply in_map_iff in Hin.
+  destruct Hin as ([u [e0 w0]] & E & Hin0). cbn [fst] in E. inversion E; subst p0 w. clear E.
+  destruct (WR u (e0, w0) Hin0) as [He Hw]. cbn [fst snd] in He, Hw.
+  assert (Hu : In u (k_params k)) by (exact (in_combine_l _ _ _ _ Hin0)).
+  destruct (tbl_lookup k s u T Hu) as (p1 & Hgp & Hp1 & Hd1).
+  assert (Ha : exists a, get (ap_denom p1) (st_assets s1) = Some a /\ as_el a = e0).
+  { rewrite Hd1. pose proof (Hel (ap_denom u)) as E1. unfold elmap in E1. change (st_assets s0) with (st_assets s) in E1. rewrite He in E1.
+    destruct (get (ap_denom u) (st_assets s1)) as [a|] eqn:G; [|discriminate]. exists a. split; [reflexivity|]. simpl in E1. congruence. }
+  destruct Ha as (a & Ha & Hae). destruct (Hat p1 a Hp1 Ha) as [F1 F2].
+  unfold elmap in F1. rewrite Hgp. change (if ap_tl p1 && (e0 + dt <? ap_period p1) then (e0 + dt, w0) else (0, 0)) with (tick_rule dt p1 e0 w0).
+  rewrite Hd1 in F1, F2. rewrite F1, F2, Hae, Hwn. change (st_win s0) with (st_win s). rewrite <- Hw.
+  split; reflexivity.
+Qed.
+
+Lemma begin_block_tbl k s dt : Inv s -> Strict s -> Tbl k s -> Tbl k (begin_block s dt).
+Proof.
+  intros I S T. destruct (begin_block_spec s dt I S) as (_ & _ & _ & HP & Hc). destruct T as [T1 T2 T3 T4 T5 T6 T7].
+  constructor; auto; try (rewrite HP; assumption).
+  intros id c Hg. rewrite Hc in Hg. destruct (get id (st_contracts s)) as [c0|] eqn:G; [exact (T3 _ _ G)|discriminate].
+Qed.
+
+Lemma adv_ws k : forall dts s ws, Inv s -> Strict s -> Tbl k s -> PInv k s -> WsRel k s ws ->
+  WsRel k (fold_left begin_block dts s) (wticks k (st_params s) ws dts) /\ PInv k (fold_left begin_block dts s).
+Proof.
+  unfold wticks. induction dts as [|dt dts IH]; intros s ws I S T HPv WR; simpl; [auto|].
   destruct (begin_block_spec s dt I S) as (I1 & S1 & _ & HP1 & _).
-  destruct (k_params k) as [|p0 P] eqn:EP.
-  - split; [apply WsRel_nil; exact EP|]. intros Hne. unfold PInv in *. rewrite EP in Hne. congruence.
-  - rewrite <- EP in *.
-    assert (Hne : k_params k <> []) by (rewrite EP; discriminate).
-    destruct (begin_block_ws k s dt ws I HP Hnd (HPv Hne) WR) as [WR1 HPv1].
-    apply IH; [exact I1|exact S1|rewrite HP1; exact HP|exact Hnd|intros _; exact (HPv1 Hne)|exact WR1].
+  destruct (begin_block_ws k s dt ws I T HPv WR) as [WR1 HPv1].
+  pose proof (IH (begin_block s dt) _ I1 S1 (begin_block_tbl k s dt I S T) HPv1 WR1) as H. rewrite HP1 in H. exact H.
 Qed.
 
 (** ** Part F: the whole checker *)
-Lemma tbl_step k s c : Inv s -> Strict s -> wf_op (to_op k c) -> op_wf k c = true -> Tbl k s -> Tbl k (step s (to_op k c)).
+Lemma nodupb_sound l : nodupb l = true -> NoDup l.
 Proof.
-  intros I S W OW T. destruct (step_inv s _ I S W) as (_ & _ & HP). destruct T as [T1 T2 T3 T4 T5 T6].
-  constructor; auto; [|rewrite HP; exact T6].
-  intros id c' Hg. destruct (get id (st_contracts s)) as [c0|] eqn:Hg0; [exact (T3 _ _ Hg0)|].
-  destruct (created_open_lemma s _ id c' I S W Hg0 Hg) as (_ & _ & _ & m & Eo & ->).
-  destruct c as [idx m'| | | |]; cbn [to_op] in Eo; try discriminate. inversion Eo; subst m'.
-  unfold op_wf in OW. apply (proj1 (eqb_true_iff _ _)) in OW. destruct (nthZ_Some _ _ _ OW) as [_ Hn].
-  exact (nth_error_In _ _ Hn).
+  induction l as [|x l IH]; simpl; intros H; [constructor|].
+  apply andb_true_iff in H. destruct H as [H1 H2]. constructor; [|exact (IH H2)].
+  intros Hin. apply negb_true_iff in H1. assert (existsb (Z.eqb x) l = true); [|congruence].
+  apply existsb_exists. exists x. split; [exact Hin|apply Z.eqb_refl].
+Qed.
+
+Lemma tbl_step k s c : Inv s -> Strict s -> wf_op s (to_op k c) -> op_wf k c = true -> Tbl k s -> Tbl k (step s (to_op k c)).
+Proof.
+  intros I S W OW T. destruct (step_inv s _ I S W) as (_ & _ & HP). destruct T as [T1 T2 T3 T4 T5 T6 T7].
+  constructor; auto.
+  - intros id c' Hg. destruct (get id (st_contracts s)) as [c0|] eqn:Hg0; [exact (T3 _ _ Hg0)|].
+    destruct (created_open_lemma s _ id c' I S W Hg0 Hg) as (_ & _ & _ & m & Eo & ->).
+    destruct c as [idx m'| | | |]; cbn [to_op] in Eo; try discriminate. inversion Eo; subst m'.
+    unfold op_wf in OW. apply (proj1 (eqb_true_iff _ _)) in OW. destruct (nthZ_Some _ _ _ OW) as [_ Hn].
+    exact (nth_error_In _ _ Hn).
+  - rewrite HP. destruct c as [| | | |gw gP]; cbn [to_op params_after]; try exact T6.
+    cbn [to_op] in W. unfold wf_op in W. destruct (step_ok s (SetParams gw gP)) eqn:Hok; [|exact T6].
+    destruct (compat_b_sound s gP (W eq_refl)) as [SD _]. intros d. rewrite (T6 d). exact (SD d).
+  - rewrite HP. destruct c as [| | | |gw gP]; cbn [to_op params_after]; try exact T7.
+    destruct (step_ok s (SetParams gw gP)) eqn:Hok; [|exact T7].
+    unfold step_ok in Hok. cbn [exec] in Hok. destruct ((gw =? GOV) && params_valid gP) eqn:E; [|discriminate].
+    apply andb_true_iff in E. destruct E as [_ E]. unfold params_valid in E. apply andb_true_iff in E. destruct E as [_ E].
+    exact (nodupb_sound _ E).
 Qed.
 
 (** the observations handed to the checker are the projections of the model's own states *)
@@ -1254,37 +1330,78 @@ Fixpoint trace_ok (k : case) (nd : nat) (s : state) (po : obs) (steps : list (co
       /\ trace_ok k nd s' (undiff po d) rest
   end.
 
+Lemma termW_same d id p : termW d id p p = 0.
+Proof.
+  unfold termW. destruct p as [p'|]; [|reflexivity].
+  destruct (c_state_of p' =? 0) eqn:E0; simpl; [|reflexivity]. apply Z.eqb_eq in E0. rewrite E0. reflexivity.
+Qed.
+
+Lemma WsRel_setparams k nd s who P' code0 code po o ws :
+  Vw k nd s code0 po -> Vw k nd (step s (SetParams who P')) code o -> WsRel k s ws -> WsRel k s (wclaims k po o ws).
+Proof.
+  intros V V' WR. destruct (setparams_fields s who P') as (E1 & _).
+  rewrite (wclaims_eq k po o ws (Pof s) (Pof s)).
+  2:{ rewrite (vw_contracts _ _ _ _ _ V). reflexivity. }
+  2:{ rewrite (vw_contracts _ _ _ _ _ V'). unfold cproj, Pof. rewrite E1. reflexivity. }
+  intros p w Hin. rewrite combine_map_snd in Hin. apply in_map_iff in Hin.
+  destruct Hin as ([p0 [el0 w0]] & E & Hin0). cbn [fst snd] in E. inversion E; subst p w. clear E.
+  destruct (WR p0 (el0, w0) Hin0) as [He Hw]. cbn [fst snd] in *. split; [exact He|].
+  rewrite (zsum_map_ext _ (fun _ => 0)) by (intros; apply termW_same).
+  rewrite Hw. clear. induction (k_ids k); simpl; lia.
+Qed.
+
 Lemma check_from_pass k nd : forall steps s po ws i code0,
   Inv s -> Strict s -> Tbl k s -> Vw k nd s code0 po -> WsRel k s ws -> PInv k s ->
-  Forall (fun cd : cop * dobs => wf_op (to_op k (fst cd))) steps -> trace_ok k nd s po steps ->
-  check_from k true s po ws steps i (mkV (-1) (-1) 0 (-1) 0) = mkV (-1) (-1) 0 (-1) 0.
+  wf_run s (map (fun cd : cop * dobs => to_op k (fst cd)) steps) -> trace_ok k nd s po steps ->
+  check_from k true true s po ws steps i (mkV (-1) (-1) 0 (-1) 0) = mkV (-1) (-1) 0 (-1) 0.
 Proof.
   induction steps as [|[c d] rest IH]; intros s po ws i code0 I S T V WR PV WF TR; [reflexivity|].
-  inversion WF as [|? ? W WF']; subst. cbn [fst] in W. destruct TR as (OW & V' & TR').
-  assert (Hns : is_setparams c = false) by (destruct c; try reflexivity; destruct W).
-  cbn [check_from]. rewrite Hns. cbn [andb negb]. set (o := undiff po d) in *. set (s' := step s (to_op k c)) in *.
+  cbn [map fst wf_run] in WF. destruct WF as [W WF']. destruct TR as (OW & V' & TR').
+  cbn [check_from]. set (o := undiff po d) in *. set (s' := step s (to_op k c)) in *.
   destruct (step_inv s _ I S W) as (I' & S' & HP').
   pose proof (tbl_step k s c I S W OW T) as T'. fold s' in T', I', S', HP'.
   pose proof (Vw_corr _ _ _ _ _ V') as Hcorr.
   pose proof (p03_step k nd s c po o code0 I S W OW T' V V') as H03.
+  (* an accepted parameter change of a well-formed history is compatible: the monitors stay on *)
+  assert (Hinc : (match c with
+                  | CSetParams _ P' => (o_code o =? 0) && negb (compat_b s P')
+                  | _ => false
+                  end) = false).
+  { destruct c as [| | | |gw gP]; try reflexivity. cbn [to_op] in *. rewrite (vw_code _ _ _ _ _ V').
+    unfold wf_op in W. destruct (step_ok s (SetParams gw gP)); [rewrite (W eq_refl); reflexivity|reflexivity]. }
+  assert (Hdc : (match c with
+                 | CSetParams _ P' => (o_code o =? 0) && negb (same_denoms_b s P')
+                 | _ => false
+                 end) = false).
+  { destruct c as [| | | |gw gP]; try reflexivity. cbn [to_op] in *. rewrite (vw_code _ _ _ _ _ V').
+    unfold wf_op in W. destruct (step_ok s (SetParams gw gP)); [|reflexivity].
+    pose proof (W eq_refl) as Hc. unfold compat_b in Hc. apply andb_true_iff in Hc. destruct Hc as [Hc _]. rewrite Hc. reflexivity. }
   assert (HW : WsRel k s' (match c with
-                           | CAdv dts => wticks k ws dts
-                           | CAdvN n dt => wticks k ws (repeat dt (Z.to_nat n))
+                           | CAdv dts => wticks k (o_params po) ws dts
+                           | CAdvN n dt => wticks k (o_params po) ws (repeat dt (Z.to_nat n))
                            | _ => wclaims k po o ws
                            end) /\ PInv k s').
-  { destruct (step_facts k s (to_op k c) I S W T') as (evs & F).
-    destruct c as [idx m|who idx secret|dts|n dt|gw gP]; cbn [to_op] in *; [| | | |destruct W].
-    - split; [apply (WsRel_msg k nd s (Create m) code0 (if step_ok s (Create m) then 0 else 1) po o ws evs F S W); [intros dts; discriminate|exact V|exact V'|exact WR]|].
-      destruct (msg_win s (Create m) I S W (fun dts => ltac:(discriminate))) as ((_ & Ht & Hp) & _).
+  { rewrite (vw_params _ _ _ _ _ V).
+    destruct c as [idx m|who idx secret|dts|n dt|gw gP]; cbn [to_op] in *.
+    - destruct (step_facts k s (Create m) I S W (fun _ _ => ltac:(discriminate)) T') as (evs & F).
+      split; [apply (WsRel_msg k nd s (Create m) code0 (if step_ok s (Create m) then 0 else 1) po o ws evs F S W); [intros dts; discriminate|intros; discriminate|exact V|exact V'|exact WR]|].
+      destruct (msg_win s (Create m) I S W (fun dts => ltac:(discriminate)) (fun _ _ => ltac:(discriminate))) as ((_ & Ht & Hp) & _).
       intros Hne. unfold PrevInv, s'. rewrite Ht, Hp. exact (PV Hne).
-    - split; [apply (WsRel_msg k nd s (Claim who (id_at k idx) secret) code0 (if step_ok s (Claim who (id_at k idx) secret) then 0 else 1) po o ws evs F S W); [intros dts; discriminate|exact V|exact V'|exact WR]|].
-      destruct (msg_win s (Claim who (id_at k idx) secret) I S W (fun dts => ltac:(discriminate))) as ((_ & Ht & Hp) & _).
+    - destruct (step_facts k s (Claim who (id_at k idx) secret) I S W (fun _ _ => ltac:(discriminate)) T') as (evs & F).
+      split; [apply (WsRel_msg k nd s (Claim who (id_at k idx) secret) code0 (if step_ok s (Claim who (id_at k idx) secret) then 0 else 1) po o ws evs F S W); [intros dts; discriminate|intros; discriminate|exact V|exact V'|exact WR]|].
+      destruct (msg_win s (Claim who (id_at k idx) secret) I S W (fun dts => ltac:(discriminate)) (fun _ _ => ltac:(discriminate))) as ((_ & Ht & Hp) & _).
       intros Hne. unfold PrevInv, s'. rewrite Ht, Hp. exact (PV Hne).
-    - unfold s', step. cbn [exec]. exact (adv_ws k dts s ws I S (tb_params _ _ T) (tb_pden _ _ T) PV WR).
-    - unfold s', step. cbn [exec]. exact (adv_ws k _ s ws I S (tb_params _ _ T) (tb_pden _ _ T) PV WR). }
+    - unfold s', step. cbn [exec]. exact (adv_ws k dts s ws I S T PV WR).
+    - unfold s', step. cbn [exec]. exact (adv_ws k _ s ws I S T PV WR).
+    - (* a parameter change touches neither the records nor the window ghosts nor the clock *)
+      pose proof (WsRel_setparams k nd s gw gP code0 _ po o ws V V' WR) as WR1.
+      destruct (setparams_fields s gw gP) as (_ & _ & _ & E4 & _ & E6 & E7 & E8 & _). fold s' in E4, E6, E7, E8.
+      split.
+      + intros p w Hin. destruct (WR1 p w Hin) as [A B]. rewrite E4, E7. auto.
+      + intros Hne. unfold PrevInv. rewrite E6, E8. exact (PV Hne). }
   destruct HW as [WR' PV'].
-  pose proof (p04_state k nd s' _ o _ I' T' V' WR') as H04.
-  rewrite OW, Hcorr, H03, H04. cbn.
+  pose proof (p04_state k nd s' _ o _ I' T' V' WR') as H04. rewrite <- (vw_params _ _ _ _ _ V') in H04.
+  rewrite OW, Hcorr, H03, Hinc, Hdc. cbn [andb negb]. rewrite H04. cbn.
   exact (IH s' o _ (i + 1) _ I' S' T' V' WR' PV' WF' TR').
 Qed.
 
@@ -1306,22 +1423,25 @@ Proof.
   intros H (T1 & T2 & T3 & T4) V0 TR.
   destruct (hyps_b_sound k H) as (HP & HE & WF).
   destruct (init_inv (k_params k) (bank_of k (k_obs0 k)) (o_time (k_obs0 k)) HP HE) as [I0 S0].
-  assert (T0 : Tbl k (case_init k)) by (constructor; auto; intros id c Hg; discriminate).
+  assert (T0 : Tbl k (case_init k)).
+  { constructor; auto; [intros id c Hg; discriminate|intros d; reflexivity]. }
   assert (WR0 : WsRel k (case_init k) (map (fun _ => (0, 0)) (k_params k))).
-  { intros p w Hin _. assert (Hp : In p (k_params k)) by exact (in_combine_l _ _ _ _ Hin).
+  { intros p w Hin. assert (Hp : In p (k_params k)) by exact (in_combine_l _ _ _ _ Hin).
     assert (Hw : w = (0, 0)).
     { apply in_combine_r in Hin. apply in_map_iff in Hin. destruct Hin as (? & E & _). congruence. }
     subst w. destruct (get_param_of_In _ _ Hp) as (p' & Hgp). unfold case_init, init. sproj.
     rewrite (init_assets _ _ _ Hgp). split; reflexivity. }
   assert (PV0 : PInv k (case_init k)) by (intros _; reflexivity).
-  assert (WFs : Forall (fun cd : cop * dobs => wf_op (to_op k (fst cd))) (k_steps k)).
-  { unfold case_ops in WF. rewrite Forall_forall in *. intros cd Hin. apply WF. apply in_map_iff. exists cd. auto. }
+  assert (WFs : wf_run (case_init k) (map (fun cd : cop * dobs => to_op k (fst cd)) (k_steps k))) by exact WF.
   pose proof (check_from_pass k nd (k_steps k) (case_init k) (k_obs0 k) _ 0 0 I0 S0 T0 V0 WR0 PV0 WFs TR) as HC.
-  pose proof (p04_state k nd (case_init k) 0 (k_obs0 k) _ I0 T0 V0 WR0) as H04.
+  pose proof (p04_state k nd (case_init k) 0 (k_obs0 k) _ I0 T0 V0 WR0) as H04. rewrite <- (vw_params _ _ _ _ _ V0) in H04.
   pose proof (Vw_corr _ _ _ _ _ V0) as Hc0.
   assert (H0 : hyps0_b k = true).
   { unfold hyps_b in H. unfold hyps0_b. apply andb_true_iff in H. destruct H as [H12 H3]. rewrite H12. simpl.
-    rewrite forallb_forall in *. intros o Ho. specialize (H3 o Ho). destruct o; simpl in *; try reflexivity; try exact H3. }
+    revert H3. generalize (init (k_params k) (bank_of k (k_obs0 k)) (o_time (k_obs0 k))). generalize (case_ops k).
+    induction l as [|o l IHl]; intros s0 H3; simpl in *; [reflexivity|].
+    apply andb_true_iff in H3. destruct H3 as [Ho Hl]. rewrite (IHl _ Hl), andb_true_r.
+    destruct o; simpl in *; try reflexivity. exact Ho. }
   unfold check_case_C03, check_case_C04, check_all. fold (case_init k).
   rewrite Hc0, H0, H04. cbn [andb Z.eqb]. rewrite HC. split; reflexivity.
 Qed.
